@@ -200,6 +200,9 @@ func sameStrs(got []string, want []string) bool {
 }
 
 func checkTempo(c *TempoCase, code int, body []byte) *Bad {
+	if b := rawUTF8("tempo_"+c.Endpoint, body); b != nil {
+		return b
+	}
 	p := "tempo_" + c.Endpoint
 	if code != 200 {
 		return bad(p+"_status", "HTTP %d: %s", code, snippet(body))
